@@ -949,7 +949,8 @@ Section CodecTheorem.
   Qed.
 End CodecTheorem.
 
-Theorem unmodified_writeback img im : new_image img = Ok im -> write_file im = img.
+Theorem unmodified_writeback img im old :
+  new_image img = Ok im -> write_file old im = img.
 Proof.
   intros NI. apply new_image_inv in NI as (m & start & ar & _ & _ & _ & _ & D & _). exact D.
 Qed.
